@@ -73,18 +73,23 @@ func c15BaseScripts() []c15Base {
 		if a.Variant == "goaway" {
 			a, b = b, a
 		}
-		pairs = append(pairs, c15Pair{a, b})
+		pairs = append(pairs, c15Pair{A: a, B: b})
 	}
 	// header blocks of 3 and 4 fragments (HEADERS + 2..3 CONTINUATION) in the request
 	// headers, response headers, trailers and trailers-only block
 	ch := c15ChainShapes(false)
-	pairs = append(pairs, c15Pair{ch[0], ch[2]}, c15Pair{ch[3], ch[1]})
+	pairs = append(pairs, c15Pair{A: ch[0], B: ch[2]}, c15Pair{A: ch[3], B: ch[1]})
+	// header blocks that start with HPACK dynamic-table-size updates (request direction: shrink to 0 in
+	// block 1, grow to 64 KiB in block 2; response direction: grow to 64 KiB in block 0), SETTINGS frames
+	// that carry SETTINGS_HEADER_TABLE_SIZE
+	pairs = append(pairs, c15Pair{A: q[10], B: q[1], Tab: c15Tab{Req: "zero@1-grow64k@2", Resp: "grow64k@0"}})
 	for _, p := range pairs {
 		bt := c15Build(p)
 		var orders [][]byte
 		c15Interleavings(bt.a, bt.b, func(o []byte) { orders = append(orders, append([]byte(nil), o...)) })
 		o := orders[len(orders)/2]
-		out = append(out, c15Base{pair: p, order: o, bt: bt, units: c15Encode(c15Merge(bt.a, bt.b, o))})
+		units, _ := bt.encode(o)
+		out = append(out, c15Base{pair: p, order: o, bt: bt, units: units})
 	}
 	return out
 }
@@ -301,7 +306,7 @@ type c15TranspRun struct {
 func c15NewTranspRun(r *rep.Report, thorough bool) *c15TranspRun {
 	x := &c15TranspRun{r: r, bases: c15BaseScripts(), exch: c15Exchanges(true)}
 	// tail: the frames of a complete named call (and the connection prologue) of each direction
-	bt := c15Build(c15Pair{c15QuickShapes()[1], c15QuickShapes()[0]})
+	bt := c15Build(c15Pair{A: c15QuickShapes()[1], B: c15QuickShapes()[0]})
 	var first []byte
 	c15Interleavings(bt.a, bt.b, func(o []byte) {
 		if first == nil {
@@ -382,7 +387,7 @@ func c15JSON(v any) string { b, _ := json.Marshal(v); return string(b) }
 func TestVerifC15Transp(t *testing.T) {
 	r := rep.New("c15-transp")
 	defer r.Write()
-	r.Rule = "case = one sequence of Read/Write calls on the wrapped conn: (garbage) every byte string up to the bound, after the client preface / instead of it / in the response direction, alone or followed by a well-formed exchange, in one call or one byte per call; (corrupt) every single-field corruption (type: all 255 other values, each flag bit, length +-1, stream id 0/1/3/5/9/reserved bit, first/last payload byte, each preface byte) of every frame of 16 two-call exchanges (two of them with header blocks of 3-4 fragments), the connection ending after the corrupted frame or any later one, whole runs | one byte per call, Close | EOF then Close; (compose) every composition of short exchanges into calls; (inject) every I/O outcome (n zero/partial/full x EOF/timeout/other error, short write) at every call; each as client and as server. Distinct by construction; non-trivial = the tracer has at least one complete frame header to parse"
+	r.Rule = "case = one sequence of Read/Write calls on the wrapped conn: (garbage) every byte string up to the bound, after the client preface / instead of it / in the response direction, alone or followed by a well-formed exchange, in one call or one byte per call; (corrupt) every single-field corruption (type: all 255 other values, each flag bit, length +-1, stream id 0/1/3/5/9/reserved bit, first/last payload byte, each preface byte) of every frame of 17 two-call exchanges (two of them with header blocks of 3-4 fragments, one with HPACK dynamic-table-size updates at the start of header blocks of both directions), the connection ending after the corrupted frame or any later one, whole runs | one byte per call, Close | EOF then Close; (compose) every composition of short exchanges into calls; (inject) every I/O outcome (n zero/partial/full x EOF/timeout/other error, short write) at every call; each as client and as server. Distinct by construction; non-trivial = the tracer has at least one complete frame header to parse"
 	thorough := rep.Thorough()
 	defer debug.SetGCPercent(debug.SetGCPercent(400))
 	x := c15NewTranspRun(r, thorough)
